@@ -438,45 +438,65 @@ func (d *driver) one(c Class, fault string, cc concrete, phase string) {
 	if err != nil {
 		return
 	}
-	// what the requester saw against the model's verdict for the class
-	wantEnd := "closed"
-	if mc.Stream != "closed" {
-		wantEnd = "reset"
-	}
+	// ---- what the requester saw, judged by the property itself
 	rep.Count("wire_"+o.Wire, 1)
-	if o.Wire != mc.Wire || o.End != wantEnd {
-		s := "wrong-status"
-		switch {
-		case mc.Wire == "OK":
-			s = "valid-request-not-served"
-		case o.Wire == "OK":
-			s = "served-instead-of-refused"
-		case mc.Wire == "NOT_FOUND":
-			s = "unknown-height-not-reported-not-found"
-		}
-		rep.Violate(sig(s), fmt.Sprintf("%s: requester saw status=%s end=%s (%s), the specification says status=%s end=%s",
-			cc.what, o.Wire, o.End, o.Err, mc.Wire, wantEnd), replay)
-		return
+	refusal := c.Bytes != "ok" || c.Bounds == "oob" || c.Serve == "no" || c.Mem == "huge"
+	alarmed := false
+	alarm := func(s, what string) {
+		alarmed = true
+		rep.Violate(sig(s), cc.what+": "+what, replay)
 	}
-	switch mc.Payload {
-	case "none":
-		if len(o.Payload) > 0 {
-			rep.Violate(sig("payload-without-ok"), fmt.Sprintf("%s: %d payload bytes after status %s", cc.what, len(o.Payload), o.Wire), replay)
+	if len(o.Payload) > 0 && o.Wire != "OK" {
+		alarm("payload-without-ok", fmt.Sprintf("%d payload bytes after status %s", len(o.Payload), o.Wire))
+	}
+	switch {
+	case refusal:
+		// malformed, truncated, out of bounds, not servable: an error status or a reset, never OK
+		if o.Wire == "OK" {
+			alarm("served-instead-of-refused", fmt.Sprintf("requester saw status OK (+%d bytes, stream %s) for a request that must be refused", len(o.Payload), o.End))
 		}
-	case "full":
-		if cc.ref != nil {
+	case fault == "none" && c.Height == "unknown":
+		if o.Wire != "NOT_FOUND" {
+			alarm("unknown-height-not-reported-not-found", fmt.Sprintf("requester saw status=%s end=%s (%s)", o.Wire, o.End, o.Err))
+		}
+	case fault == "none":
+		// well-formed request for a stored block: served, and the reply verifies and equals the block
+		if o.Wire != "OK" || o.End != "closed" {
+			alarm("valid-request-not-served", fmt.Sprintf("requester saw status=%s end=%s (%s)", o.Wire, o.End, o.Err))
+		} else if cc.ref != nil {
 			if e := cc.ref.DecodeAndCheck(cc.q, o.Payload); e != nil {
-				rep.Violate(sig("reply-does-not-verify-or-differs"), fmt.Sprintf("%s: the decoded reply fails the oracle: %v", cc.what, e), replay)
+				alarm("reply-does-not-verify-or-differs", fmt.Sprintf("the decoded reply fails the oracle: %v", e))
 			} else {
 				rep.Count("replies_verified", 1)
 			}
 		}
-	case "partial":
-		if cc.ref != nil {
+	default:
+		// an environment fault hit a servable request: whatever was sent after OK is (a prefix of) the honest reply
+		if o.Wire == "OK" && cc.ref != nil && c.Height == "stored" {
 			if h, e := cc.ref.Honest(cc.q); e == nil && !bytes.HasPrefix(h, o.Payload) {
-				rep.Violate(sig("partial-payload-not-a-prefix"), cc.what+": the bytes sent before the failure are not a prefix of the honest payload", replay)
+				alarm("wrong-bytes-under-fault", "the bytes sent after OK are not a prefix of the honest payload")
 			}
 		}
+	}
+	if alarmed {
+		return
+	}
+	// ---- and against the specification's verdict for the class (a difference that still satisfies the
+	// property is conformance drift, not a violation)
+	wantEnd := "closed"
+	if mc.Stream != "closed" {
+		wantEnd = "reset"
+	}
+	gotPayload := "none"
+	if o.Wire == "OK" {
+		gotPayload = mc.Payload // full vs partial is judged above by content
+		if mc.Payload == "none" {
+			gotPayload = "some"
+		}
+	}
+	if o.Wire != mc.Wire || o.End != wantEnd || (mc.Payload == "none") != (gotPayload == "none") {
+		rep.Inconclusivef("conformance drift: %s %s (fault %s): requester saw status=%s end=%s, ShrexServer.tla says status=%s end=%s payload=%s",
+			c.Type, cc.what, fault, o.Wire, o.End, mc.Wire, wantEnd, mc.Payload)
 	}
 }
 
@@ -599,9 +619,6 @@ func (d *driver) setup() {
 // requested through the real client; the decoded container must verify and equal the reference.
 func (d *driver) sweep() {
 	for _, ref := range d.refs {
-		if ref.W > 4 {
-			continue
-		}
 		e, n := 2*ref.W, ref.W*ref.W
 		var reqs []shx.Req
 		for r := 0; r < e; r++ {
@@ -620,6 +637,11 @@ func (d *driver) sweep() {
 			for t := f + 1; t <= n; t++ {
 				reqs = append(reqs, shx.Req{Type: "range", From: f, To: t})
 			}
+		}
+		if ref.W > 4 {
+			// larger widths: a seeded sample of the servable requests
+			d.rng.Shuffle(len(reqs), func(i, j int) { reqs[i], reqs[j] = reqs[j], reqs[i] })
+			reqs = reqs[:min(len(reqs), 250)]
 		}
 		for _, q := range reqs {
 			typ := q.Type
